@@ -67,6 +67,21 @@ E_ = [2, 7, 1, 8, 2, 8, 1, 8, 2]
 
 SIG = 'def f(xs: list[fp.Real], ys: list[fp.Real], k: fp.Real):'
 
+# programs that iterate over lists of tuples take three more arguments, built by the check from
+# xs, ys: qs = [(10y+1, x)], ps = [((10y+1, y), x)], rs = [(((10y+1, y), x), x+y)]
+SIG_TUPLES = ('def f(xs: list[fp.Real], ys: list[fp.Real], k: fp.Real, '
+              'qs: list[tuple[fp.Real, fp.Real]], '
+              'ps: list[tuple[tuple[fp.Real, fp.Real], fp.Real]], '
+              'rs: list[tuple[tuple[tuple[fp.Real, fp.Real], fp.Real], fp.Real]]):')
+
+
+def tuple_args(xs, ys):
+    qs = [(10 * y + 1, x) for x, y in zip(xs, ys)]
+    ps = [((10 * y + 1, y), x) for x, y in zip(xs, ys)]
+    rs = [(((10 * y + 1, y), x), x + y) for x, y in zip(xs, ys)]
+    return qs, ps, rs
+
+
 BUMP = '''@fp.fpy
 def bump(zs: list[fp.Real], x: fp.Real) -> bool:
     zs[0] = zs[0] + 1
@@ -97,7 +112,7 @@ def _ind(lines, n=1):
     return [pad + ln for ln in lines]
 
 
-def _assemble(prologue, core, epilogue, names, helpers=False, wrap=None):
+def _assemble(prologue, core, epilogue, names, helpers=False, wrap=None, sig=None):
     """core: lines at function-body level.  wrap: context expression or None."""
     body = list(prologue)
     if wrap is not None:
@@ -106,7 +121,7 @@ def _assemble(prologue, core, epilogue, names, helpers=False, wrap=None):
     else:
         body.extend(core)
     body.extend(epilogue)
-    text = '\n'.join(['@fp.fpy', SIG] + _ind(body)) + '\n'
+    text = '\n'.join(['@fp.fpy', sig or SIG] + _ind(body)) + '\n'
     text = text.format(**names)
     return 'KF = 3\n' + (BUMP if helpers else '') + text
 
@@ -178,6 +193,8 @@ def _body_pool(lst: str):
                    '        {K} = {K} + 2'], '', ('nested',)),
         ('any', ['if any([{V} > {X} for {V} in ys]):', '    {C} = {C} + 1'], '', ()),
         ('zcomp', ['{A} = {A} + sum([{V} * {V2} for {V}, {V2} in zip(xs, ys)])'], '', ()),
+        # a comprehension in the body re-binds the loop target through a nested tuple target
+        ('shcomp', ['{A} = {A} + sum([{X} * {V} for ({X}, {V2}), {V} in zip(zip(ys, xs), ys)]) + {X}'], '', ()),
     ]
 
 
@@ -268,8 +285,8 @@ def for_programs():
                 if 'nested' in pool[tag][3] and ((scheme, wrap) in (('loop', 'p2'), ('iter', 'fix2'), ('plain', None))
                                                  or (is_static and scheme != 'loop')):
                     continue      # quadratic-cost bodies: fewer scheme x context combinations
-                core = q_header and ((tag in BODY_CORE and (scheme, wrap) in
-                                      (('loop', 'fix2'), ('iter', None), ('plain', None)))
+                core = q_header and ((tag in BODY_CORE and (scheme, wrap) in (('iter', None), ('plain', None)))
+                                     or (main and tag in BODY_CORE and (scheme, wrap) == ('loop', 'fix2'))
                                      or (scheme, wrap) == ('loop', None)
                                      or (main and tag == 'acc' and (scheme, wrap) == ('loop', 'p2'))
                                      # numbered names: bodies that make the rewrites mint many temporaries
@@ -313,7 +330,7 @@ WHILE_CONDS = [
 def while_programs():
     full = True
     out = []
-    plist = [p for p in _body_pool('xs') if p[0] not in ('idx', 'yy', 'muti', 'zcomp', 'nestrng', 'nestlit')]
+    plist = [p for p in _body_pool('xs') if p[0] not in ('idx', 'yy', 'muti', 'zcomp', 'shcomp', 'nestrng', 'nestlit')]
     pool = {p[0]: p for p in plist}
     # the nested `while` of the pool shares the counter name with the outer loop: give it its own
     pool['while'] = ('while', ['{W} = 0', 'while {W} < {X}:', '    {A} = {A} + {W}', '    with fp.INTEGER:',
@@ -454,6 +471,30 @@ ECOMPS = [
     ('zipcomp', 'sum([{V} * {V2} for {V}, {V2} in zip([{I} + 1 for {I} in xs], ys)])', False),
     ('ziprev', 'sum([{V} - {V2} for {V}, {V2} in zip(ys, xs)])', False),
     ('list', '[{V} + {V2} for {V}, {V2} in zip(xs, ys)]', False),
+    # a nested comprehension re-binds a zip/enumerate-bound name and uses it: through a plain name,
+    # a flat tuple, a depth-2 / depth-3 nested tuple, an enumerate(zip) target (lists of tuples qs ps rs)
+    ('sh-name', 'sum([sum([{V}[1] * 2 for {V} in qs]) + {V} + {V2} for {V}, {V2} in zip(xs, ys)])', 'T'),
+    ('sh-flat', 'sum([sum([{V} * {I} for {V}, {I} in qs]) + {V} + 2 * {V2} for {V}, {V2} in zip(xs, ys)])', 'T'),
+    ('sh-d2', 'sum([sum([{V} * {P} for ({V}, {I}), {P} in ps]) + {V} + 2 * {V2} for {V}, {V2} in zip(xs, ys)])', 'T'),
+    ('sh-d2b', 'sum([sum([{V2} * {P} for ({I}, {V2}), {P} in ps]) + {V} + 2 * {V2} for {V}, {V2} in zip(xs, ys)])',
+     'T'),
+    ('sh-d3', 'sum([sum([{V} * {T} for (({V}, {I}), {P}), {T} in rs]) + {V} + 2 * {V2} '
+              'for {V}, {V2} in zip(xs, ys)])', 'T'),
+    ('sh-d3b', 'sum([sum([{V2} * {T} for (({I}, {V2}), {P}), {T} in rs]) + {V} + 2 * {V2} '
+               'for {V}, {V2} in zip(xs, ys)])', 'T'),
+    ('sh-ez', 'sum([sum([{V} * {I} + {P} for {I}, ({V}, {P}) in enumerate(zip(ys, xs))]) + {V} + 2 * {V2} '
+              'for {V}, {V2} in zip(xs, ys)])', False),
+    ('sh-list-d2', '[sum([{V} * {P} for ({V}, {I}), {P} in ps]) + {V2} for {V}, {V2} in zip(xs, ys)]', 'T'),
+    ('shE-d2', 'sum([sum([{V2} * {P} for ({V2}, {I}), {P} in ps]) + {V} * {V2} for {V}, {V2} in enumerate(xs)])',
+     'T'),
+    ('shE-d3', 'sum([sum([{V2} * {T} for (({I}, {V2}), {P}), {T} in rs]) + {V} * {V2} '
+               'for {V}, {V2} in enumerate(xs)])', 'T'),
+    ('shE-flat', 'sum([sum([{V2} * {I} for {I}, {V2} in qs]) + {V} * {V2} for {V}, {V2} in enumerate(xs)])', 'T'),
+    ('shEZ-d2', 'sum([sum([{V} * {P} for ({V}, {T}), {P} in ps]) + {I} * {V} + {V2} '
+                'for {I}, ({V}, {V2}) in enumerate(zip(xs, ys))])', 'T'),
+    ('shEZ-ez', 'sum([sum([{V2} * {T} + {W} for {T}, ({W}, {V2}) in enumerate(zip(ys, xs))]) + {I} * {V} + {V2} '
+                'for {I}, ({V}, {V2}) in enumerate(zip(xs, ys))])', False),
+    ('shW-d2', 'sum([sum([{P} * {W} for ({P}, {I}), {W} in ps]) + {P}[0] + 2 * {P}[1] for {P} in zip(xs, ys)])', 'T'),
     ('effect', 'sum([bumpv(xs, {V}) + {V2} for {V}, {V2} in zip(xs, ys)])', True),
     ('effect-enum', 'sum([bumpv(xs, {V2}) + {V} for {V}, {V2} in enumerate(xs)])', True),
 ]
@@ -461,7 +502,7 @@ ECOMPS = [
 EPOS = [
     ('assign', ['{A} = {M}'], 'return ({A}, xs)'),
     ('return', [], 'return ({M}, {C})'),
-    ('for-body', ['{A} = {A} - 1', 'for {X} in ys:', '    {T} = {M}', '    {C} = {C} + 1'], 'return ({A}, {C}, xs)'),
+    ('for-body', ['{A} = {A} - 1', 'for {X} in ys:', '    {A} = {M}', '    {C} = {C} + 1'], 'return ({A}, {C}, xs)'),
     ('after-mut', ['for {X} in ys:', '    xs[len(xs) - 1] = {X} + {C}', '    {C} = {C} + 1', '{A} = {M}'],
      'return ({A}, {C}, xs)'),
     # the counter steps under the exact integer context so the loop ends under any ambient context
@@ -474,13 +515,16 @@ def comp_programs():
     full = True
     out = []
     for pkey, lines, epi in EPOS:
-        for ckey, comp, helper in ECOMPS:
+        for ckey, comp, flag in ECOMPS:
+            tuples = flag == 'T'
+            helper = flag is True
             for scheme in ('iter', 'plain', 'loop') + (('num',) if full else ()):
                 for wrap in (None, 'fix2') + (('p2',) if full else ()):
                     names = SCHEMES[scheme]
                     body = [ln.replace('{M}', comp) for ln in lines]
                     src = _assemble(['{A} = KF - 3', '{C} = 1'], body, [epi.replace('{M}', comp)], names,
-                                    helpers=helper, wrap=None if wrap is None else NARROW[wrap])
+                                    helpers=helper, wrap=None if wrap is None else NARROW[wrap],
+                                    sig=SIG_TUPLES if tuples else None)
                     if wrap is not None and not lines:
                         continue     # nothing to wrap
                     tags = {'family': 'E', 'header': ckey, 'iter': 'comprehension', 'position': pkey,
@@ -488,6 +532,11 @@ def comp_programs():
                             'site': 'comp', 'body': ckey, 'features': 'effect' if helper else '-'}
                     core = (scheme == 'iter' and wrap is None) or (scheme == 'plain' and wrap == 'fix2'
                                                                     and pkey == 'assign')
+                    if ckey.startswith('sh') and ckey != 'shadowed':
+                        # the shadowing comprehensions: every one at the assignment, the for-body and the
+                        # return position under one scheme; all the rest is thorough
+                        core = (scheme == 'plain' and wrap is None and pkey in ('assign', 'for-body')) or \
+                               (scheme == 'iter' and wrap is None and pkey == 'return')
                     out.append((Prog('E', src, tags), core))
     return out
 
@@ -515,7 +564,7 @@ def all_programs(tier: str, seed: int = 0):
             rest.append(p)
     extra = []
     if tier == 'quick' and rest:
-        m = max(1, len(rest) // 64)          # ~64 extra programs
+        m = max(1, len(rest) // 40)          # ~40 extra programs
         extra = [p for i, p in enumerate(rest) if i % m == seed % m]
         for p in extra:
             p.tags = dict(p.tags, slice='seed')
